@@ -1,686 +1,3 @@
-(* Proofs/GenKernels.v — the functions GENERATED from /repo's Go sources on every run (Gen/kernels.v, by /verif/translator/kernels.go)
-   are equal to the corresponding functions of the hand-written model.  A change of one of these Go methods changes the generated
-   definition and breaks the lemma here that names it: the tie between model and code is, for these kernels, a proof obligation and
-   not a sample.  Covered: x/subaccount AccountSummary (7 methods), x/orderbook OrderBookParticipation / ParticipationExposure
-   (14 methods: withdrawable amounts, eligibility, liquidity trimming, round reset, the max-loss bookkeeping of a fulfilment),
-   x/ovm MajorityCount and IsExpired, x/reward Pool (5 methods), x/house CalcHouseParticipationFeeAmount. *)
-From Coq Require Import ZArith Bool List Lia.
-From Sge Require Import Lib.Dec Model.Types Model.Orderbook Model.Mint Model.Chain Gen.kernels.
-From Sge Require Model.Reward.
-Import ListNotations.
-Open Scope Z_scope.
-
-(* ---- x/subaccount/types/accsummary.go ----------------------------------------------------------------------------------------------- *)
-Definition as_of (x : subacc) : G_AccountSummary :=
-  {| G_AccountSummary_DepositedAmount := sa_dep x; G_AccountSummary_SpentAmount := sa_spent x;
-     G_AccountSummary_WithdrawnAmount := sa_wd x; G_AccountSummary_LostAmount := sa_lost x |}.
-
-Lemma gen_Available x : K_AccountSummary_Available (as_of x) = sub_available x.
-Proof. reflexivity. Qed.
-
-Lemma gen_Spend x a : K_AccountSummary_Spend (as_of x) a = option_map as_of (sub_spend x a).
-Proof. unfold K_AccountSummary_Spend, sub_spend. rewrite gen_Available. destruct (a <? 0); [reflexivity|]. destruct (sub_available x <? a); reflexivity. Qed.
-Lemma gen_Unspend x a : K_AccountSummary_Unspend (as_of x) a = option_map as_of (sub_unspend x a).
-Proof. unfold K_AccountSummary_Unspend, sub_unspend. cbn [as_of G_AccountSummary_SpentAmount]. destruct (a <? 0); [reflexivity|]. destruct (sa_spent x <? a); reflexivity. Qed.
-Lemma gen_AddLoss x a : K_AccountSummary_AddLoss (as_of x) a = option_map as_of (sub_addloss x a).
-Proof. unfold K_AccountSummary_AddLoss, sub_addloss. destruct (a <? 0); reflexivity. Qed.
-Lemma gen_Withdraw x a : K_AccountSummary_Withdraw (as_of x) a = option_map as_of (sub_withdraw x a).
-Proof. unfold K_AccountSummary_Withdraw, sub_withdraw. rewrite gen_Available. destruct (a <? 0); [reflexivity|]. destruct (sub_available x <? a); reflexivity. Qed.
-
-(* the amount sub_withdraw_unlocked pays (keeper/balance.go withdrawUnlocked) and the bound of sub_wager (withdrawLockedAndUnlocked) *)
-Lemma gen_WithdrawableUnlockedBalance x unlocked bank :
-  K_AccountSummary_WithdrawableUnlockedBalance (as_of x) unlocked bank = Z.min (Z.min (sub_available x) (zmax0 (unlocked - sa_wd x))) bank.
-Proof. unfold K_AccountSummary_WithdrawableUnlockedBalance, zmax0. rewrite gen_Available. cbn [as_of G_AccountSummary_WithdrawnAmount]. rewrite Z.max_comm. reflexivity. Qed.
-Lemma gen_WithdrawableBalance x bank : K_AccountSummary_WithdrawableBalance (as_of x) bank = Z.min (sub_available x) bank.
-Proof. reflexivity. Qed.
-
-(* the model uses exactly these two expressions *)
-Lemma model_uses_withdrawable_unlocked s owner x :
-  sub_by_owner (c_subs s) owner = Some x ->
-  sub_withdraw_unlocked s owner =
-  (let w := K_AccountSummary_WithdrawableUnlockedBalance (as_of x) (unlocked_total (c_now s) x) (bget (c_bank s) (sub_addr x)) in
-   if w =? 0 then None else
-   match sub_withdraw x w with
-   | None => None
-   | Some x' => match pay (c_bank s) (sub_addr x) owner w with None => None | Some b => Some (set_bank (with_subs s (set_sub (c_subs s) x')) b) end
-   end).
-Proof. intros E. unfold sub_withdraw_unlocked. rewrite E, gen_WithdrawableUnlockedBalance. reflexivity. Qed.
-
-(* ---- x/orderbook/types/participation.go, exposure.go ------------------------------------------------------------------------------- *)
-Definition gp_of (p : part) : G_OrderBookParticipation :=
-  {| G_OrderBookParticipation_Index := p_idx p; G_OrderBookParticipation_OrderBookUID := 0;
-     G_OrderBookParticipation_ParticipantAddress := p_owner p; G_OrderBookParticipation_Liquidity := p_liq p;
-     G_OrderBookParticipation_Fee := p_fee p; G_OrderBookParticipation_CurrentRoundLiquidity := p_crl p;
-     G_OrderBookParticipation_ExposuresNotFilled := p_enf p; G_OrderBookParticipation_TotalBetAmount := p_tba p;
-     G_OrderBookParticipation_CurrentRoundTotalBetAmount := p_crtb p; G_OrderBookParticipation_MaxLoss := p_maxloss p;
-     G_OrderBookParticipation_CurrentRoundMaxLoss := p_crml p; G_OrderBookParticipation_CurrentRoundMaxLossOddsUID := p_crml_odds p;
-     G_OrderBookParticipation_ActualProfit := p_profit p; G_OrderBookParticipation_IsSettled := p_settled p;
-     G_OrderBookParticipation_ReturnedAmount := p_returned p; G_OrderBookParticipation_ReimbursedFee := p_reimb p |}.
-Definition ge_of (e : expo) : G_ParticipationExposure :=
-  {| G_ParticipationExposure_OrderBookUID := 0; G_ParticipationExposure_OddsUID := e_odds e;
-     G_ParticipationExposure_ParticipationIndex := e_part e; G_ParticipationExposure_Exposure := e_exp e;
-     G_ParticipationExposure_BetAmount := e_bet e; G_ParticipationExposure_IsFulfilled := e_ful e; G_ParticipationExposure_Round := e_round e |}.
-
-Lemma gen_maxWithdrawalAmount p : K_OrderBookParticipation_maxWithdrawalAmount (gp_of p) = max_withdrawal p.
-Proof. reflexivity. Qed.
-
-Lemma gen_WithdrawableAmount p mode amount : K_OrderBookParticipation_WithdrawableAmount (gp_of p) mode amount = withdrawable_amount p mode amount.
-Proof.
-  unfold K_OrderBookParticipation_WithdrawableAmount, withdrawable_amount. rewrite gen_maxWithdrawalAmount. unfold WM_FULL, WM_PARTIAL.
-  destruct (mode =? 1); [destruct (max_withdrawal p <=? 0); reflexivity|]. destruct (mode =? 2); [destruct (max_withdrawal p <? amount); reflexivity|reflexivity].
-Qed.
-
-Lemma gen_IsEligibleForNextRound p : K_OrderBookParticipation_IsEligibleForNextRound (gp_of p) = eligible_next p.
-Proof. reflexivity. Qed.
-Lemma gen_IsLiquidityInCurrentRound p : K_OrderBookParticipation_IsLiquidityInCurrentRound (gp_of p) = (0 <? p_crl p).
-Proof. reflexivity. Qed.
-Lemma gen_IsEligiblePre p : K_OrderBookParticipation_IsEligibleForNextRoundPreLiquidityReduction (gp_of p) = eligible_pre p.
-Proof. reflexivity. Qed.
-Lemma gen_NotParticipated p : K_OrderBookParticipation_NotParticipatedInBetFulfillment (gp_of p) = (p_tba p =? 0).
-Proof. reflexivity. Qed.
-
-(* the participation written by a withdrawal (WithdrawOrderBookParticipation) *)
-Lemma gen_SetLiquidityAfterWithdrawal p amt :
-  K_OrderBookParticipation_SetLiquidityAfterWithdrawal (gp_of p) amt =
-  gp_of (part_upd p (p_liq p - amt) (p_crl p - amt) (p_enf p) (p_tba p) (p_crtb p) (p_maxloss p) (p_crml p) (p_crml_odds p) (p_profit p)).
-Proof. reflexivity. Qed.
-
-(* the two steps of refreshQueueAndState on the participation: trim, then reset for the next round (iter_refresh: p4, p5) *)
-Lemma gen_TrimCurrentRoundLiquidity p :
-  K_OrderBookParticipation_TrimCurrentRoundLiquidity (gp_of p) = gp_of (part_set_crl p (p_crl p - zmax0 (p_crml p))).
-Proof. reflexivity. Qed.
-Lemma gen_ResetForNextRound p n :
-  K_OrderBookParticipation_ResetForNextRound (gp_of p) n =
-  gp_of (part_upd p (p_liq p) (p_crl p) n (p_tba p) 0 (p_maxloss p + p_crml p) 0 (p_crml_odds p) (p_profit p)).
-Proof. reflexivity. Qed.
-
-(* the bookkeeping of one fulfilment: exposure.SetCurrentRound, then participation.SetCurrentRound with setMaxLoss, is fulfil_records *)
-Lemma gen_fulfil_records p e o stake pay :
-  let pe' := K_ParticipationExposure_SetCurrentRound (ge_of e) stake pay in
-  let p' := K_OrderBookParticipation_SetCurrentRound (gp_of p) pe' o stake in
-  (p', pe') = (gp_of (fst (fulfil_records p e o stake pay)), ge_of (snd (fulfil_records p e o stake pay))).
-Proof.
-  cbv zeta. unfold fulfil_records. cbv zeta.
-  unfold K_OrderBookParticipation_SetCurrentRound, K_OrderBookParticipation_setMaxLoss, K_OrderBookParticipation_CalculateMaxLoss,
-    K_ParticipationExposure_CalculateMaxLoss, K_ParticipationExposure_SetCurrentRound.
-  cbn [gp_of ge_of G_OrderBookParticipation_CurrentRoundMaxLossOddsUID G_OrderBookParticipation_CurrentRoundMaxLoss
-       G_OrderBookParticipation_CurrentRoundTotalBetAmount G_OrderBookParticipation_TotalBetAmount
-       set_G_OrderBookParticipation_TotalBetAmount set_G_OrderBookParticipation_CurrentRoundTotalBetAmount
-       set_G_OrderBookParticipation_CurrentRoundMaxLoss set_G_OrderBookParticipation_CurrentRoundMaxLossOddsUID
-       G_ParticipationExposure_Exposure G_ParticipationExposure_BetAmount set_G_ParticipationExposure_Exposure set_G_ParticipationExposure_BetAmount
-       e_exp e_bet expo_upd].
-  destruct (p_crml_odds p =? o) eqn:E1.
-  - cbn [fst snd]. reflexivity.
-  - destruct (p_crml p - stake <? e_exp e + pay + (e_bet e + stake) - (p_crtb p + stake)); cbn [fst snd]; reflexivity.
-Qed.
-
-(* ---- x/ovm ---------------------------------------------------------------------------------------------------------------------------- *)
-(* MajorityCount = ceil(n x 0.6667), for every vault size up to 1000 (the vault holds 4 or 5 keys) *)
-Definition kv_of (keys : list Z) : G_KeyVault := {| G_KeyVault_PublicKeys := keys |}.
-Lemma gen_MajorityCount_len keys keys' : length keys = length keys' -> K_KeyVault_MajorityCount (kv_of keys) = K_KeyVault_MajorityCount (kv_of keys').
-Proof. intros H. unfold K_KeyVault_MajorityCount, kv_of, klen. cbn [G_KeyVault_PublicKeys]. rewrite H. reflexivity. Qed.
-Lemma gen_MajorityCount : forall keys, zlen keys <= 1000 -> K_KeyVault_MajorityCount (kv_of keys) = majority_count (zlen keys).
-Proof.
-  assert (H : forallb (fun i => K_KeyVault_MajorityCount (kv_of (List.repeat 0 i)) =? majority_count (Z.of_nat i)) (seq 0 1001) = true)
-    by (vm_compute; reflexivity).
-  intros keys Hn. unfold zlen in *. rewrite forallb_forall in H. specialize (H (length keys)).
-  rewrite (gen_MajorityCount_len keys (List.repeat 0 (length keys))) by (rewrite repeat_length; reflexivity).
-  apply Z.eqb_eq. apply H. apply in_seq. lia.
-Qed.
-
-Definition gprop_of (p : proposal) : G_PublicKeysChangeProposal :=
-  {| G_PublicKeysChangeProposal_Id := pp_id p; G_PublicKeysChangeProposal_Creator := pp_creator p;
-     G_PublicKeysChangeProposal_Modifications := {| G_PubkeysChangeProposalPayload_PublicKeys := pp_keys p; G_PubkeysChangeProposalPayload_LeaderIndex := pp_leader p |};
-     G_PublicKeysChangeProposal_Votes := map (fun v => {| G_Vote_PublicKey := fst v; G_Vote_Vote := snd v |}) (pp_votes p);
-     G_PublicKeysChangeProposal_StartTS := pp_start p; G_PublicKeysChangeProposal_Result := pp_result p; G_PublicKeysChangeProposal_ResultMeta := 0;
-     G_PublicKeysChangeProposal_FinishTS := pp_finish p; G_PublicKeysChangeProposal_Status := pp_status p |}.
-(* the expiry test of ovm_finish *)
-Lemma gen_IsExpired p now : K_PublicKeysChangeProposal_IsExpired (gprop_of p) now = (1800 <? now - pp_start p).
-Proof. reflexivity. Qed.
-
-(* ---- x/reward/types/pool.go ------------------------------------------------------------------------------------------------------------ *)
-Definition pool_of (c : Reward.campaign) : G_Pool := {| G_Pool_Total := Reward.cm_total c; G_Pool_Spent := Reward.cm_spent c; G_Pool_Withdrawn := Reward.cm_withdrawn c |}.
-Lemma gen_AvailableAmount c : K_Pool_AvailableAmount (pool_of c) = Reward.cm_avail c.
-Proof. reflexivity. Qed.
-Lemma gen_CheckBalance c x : K_Pool_CheckBalance (pool_of c) x = negb (Reward.cm_avail c <? x).
-Proof. unfold K_Pool_CheckBalance. rewrite gen_AvailableAmount. destruct (Reward.cm_avail c <? x); reflexivity. Qed.
-Lemma gen_Pool_Spend c x : K_Pool_Spend (pool_of c) x = {| G_Pool_Total := Reward.cm_total c; G_Pool_Spent := Reward.cm_spent c + x; G_Pool_Withdrawn := Reward.cm_withdrawn c |}.
-Proof. reflexivity. Qed.
-Lemma gen_Pool_TopUp c x : K_Pool_TopUp (pool_of c) x = {| G_Pool_Total := Reward.cm_total c + x; G_Pool_Spent := Reward.cm_spent c; G_Pool_Withdrawn := Reward.cm_withdrawn c |}.
-Proof. reflexivity. Qed.
-Lemma gen_Pool_Withdraw c x : K_Pool_Withdraw (pool_of c) x = {| G_Pool_Total := Reward.cm_total c; G_Pool_Spent := Reward.cm_spent c; G_Pool_Withdrawn := Reward.cm_withdrawn c + x |}.
-Proof. reflexivity. Qed.
-
-(* ---- x/house/types/deposit.go ------------------------------------------------------------------------------------------------------------ *)
-Lemma gen_HouseFee creator dep mkt idx amount wc wt fee :
-  K_Deposit_CalcHouseParticipationFeeAmount
-    {| G_Deposit_Creator := creator; G_Deposit_DepositorAddress := dep; G_Deposit_MarketUID := mkt; G_Deposit_ParticipationIndex := idx;
-       G_Deposit_Amount := amount; G_Deposit_WithdrawalCount := wc; G_Deposit_TotalWithdrawalAmount := wt |} fee =
-  dec_round_int (dec_mulint fee amount).
-Proof. reflexivity. Qed.
-
-(* ---- x/bet/types/payout.go, odds_type.go ---------------------------------------------------------------------------------------------- *)
-(* the decimal odds string of the ticket is the model's Dec value (parsing belongs to the harness): CalculatePayoutProfit is payout_profit *)
-Lemma gen_CalculatePayoutProfit ov amount : K__CalculatePayoutProfit ov amount = payout_profit ov amount.
-Proof.
-  unfold K__CalculatePayoutProfit, K__calculatePayout, K__CalculateDecimalPayout, payout_profit.
-  destruct (0 <? ov) eqn:E1; cbn [negb].
-  - destruct (ov <=? PREC); reflexivity.
-  - apply Z.ltb_ge in E1. assert (E2 : ov <=? PREC = true) by (apply Z.leb_le; unfold PREC; lia). rewrite E2. reflexivity.
-Qed.
-
-Lemma gen_CalculateBetAmountInt ov profit carry : PREC < ov ->
-  K__CalculateBetAmountInt ov profit carry = Some (bet_amount_int ov profit carry).
-Proof.
-  intros H. unfold K__CalculateBetAmountInt, K__CalculateBetAmount, K__calculateBetAmount, K__CalculateDecimalBetAmount, bet_amount_int.
-  assert (E1 : 0 <? ov = true) by (apply Z.ltb_lt; unfold PREC in H; lia). assert (E2 : ov <=? PREC = false) by (apply Z.leb_gt; exact H).
-  rewrite E1, E2. cbn [negb]. reflexivity.
-Qed.
-
-(* ---- x/mint/types/minter.go ------------------------------------------------------------------------------------------------------------ *)
-Lemma gen_NextPhaseProvisions infl step prov trunc supply exclude ph :
-  K_Minter_NextPhaseProvisions {| G_Minter_Inflation := infl; G_Minter_PhaseStep := step; G_Minter_PhaseProvisions := prov; G_Minter_TruncatedTokens := trunc |}
-    supply exclude {| G_Phase_Inflation := ph_infl ph; G_Phase_YearCoefficient := ph_coef ph |} =
-  next_phase_provisions infl supply exclude ph.
-Proof.
-  unfold K_Minter_NextPhaseProvisions, next_phase_provisions, zmax0. cbn [G_Minter_Inflation G_Phase_YearCoefficient].
-  destruct (supply - exclude <? 0) eqn:E; [apply Z.ltb_lt in E; rewrite Z.max_l by lia; reflexivity|apply Z.ltb_ge in E; rewrite Z.max_r by lia; reflexivity].
-Qed.
-
-(* ---- x/market/types/market.go, x/bet/types/bet.go, LockedBalance.Validate, ValidateWithdraw ------------------------------------------- *)
-Definition gm_of (mk : market) : G_Market :=
-  {| G_Market_UID := k_uid mk; G_Market_StartTS := k_start mk; G_Market_EndTS := k_end mk; G_Market_Odds := map (fun o => {| G_Odds_UID := o; G_Odds_Meta := 0 |}) (k_odds mk);
-     G_Market_WinnerOddsUIDs := k_winners mk; G_Market_Status := k_status mk; G_Market_ResolutionTS := k_rts mk;
-     G_Market_Creator := k_creator mk; G_Market_Meta := 0; G_Market_BookUID := k_uid mk |}.
-
-Lemma gen_market_update_allowed mk : K_Market_IsUpdateAllowed (gm_of mk) = status_ai (k_status mk).
-Proof. reflexivity. Qed.
-Lemma gen_market_resolve_allowed mk : K_Market_IsResolveAllowed (gm_of mk) = status_ai (k_status mk).
-Proof. reflexivity. Qed.
-Lemma gen_market_resolved mk : K_Market_IsResolved (gm_of mk) = status_resolved (k_status mk).
-Proof.
-  unfold K_Market_IsResolved, status_resolved, MK_CANCELED, MK_ABORTED, MK_DECLARED. cbn [gm_of G_Market_Status].
-  destruct (k_status mk =? 5), (k_status mk =? 3), (k_status mk =? 4); reflexivity.
-Qed.
-
-(* Bet_STATUS_CANCELED (2) is never assigned by any code path; apart from it the eligibility test is "not settled yet" *)
-Lemma gen_bet_eligible st uid mkt odds ov amt fee res cr cat sh ml bf : st <> 2 ->
-  K_Bet_CheckSettlementEligiblity {| G_Bet_UID := uid; G_Bet_MarketUID := mkt; G_Bet_OddsUID := odds; G_Bet_OddsValue := ov; G_Bet_Amount := amt;
-      G_Bet_Fee := fee; G_Bet_Status := st; G_Bet_Result := res; G_Bet_Creator := cr; G_Bet_CreatedAt := cat; G_Bet_SettlementHeight := sh;
-      G_Bet_MaxLossMultiplier := ml; G_Bet_BetFulfillment := bf |} = negb (st =? BS_SETTLED).
-Proof.
-  intros H. unfold K_Bet_CheckSettlementEligiblity, BS_SETTLED. cbn [G_Bet_Status].
-  destruct (st =? 6); [reflexivity|]. destruct (Z.eqb_spec st 2); [contradiction|reflexivity].
-Qed.
-
-Lemma gen_lock_ok now ts amt : K_LockedBalance_Validate {| G_LockedBalance_UnlockTS := ts; G_LockedBalance_Amount := amt |} = lock_ok now (ts, amt).
-Proof. unfold K_LockedBalance_Validate, lock_ok. cbn [G_LockedBalance_UnlockTS G_LockedBalance_Amount fst snd]. destruct (ts =? 0); [reflexivity|]. destruct (amt <? 0); reflexivity. Qed.
-
-(* the two guards at the head of calc_withdrawal *)
-Lemma gen_ValidateWithdraw p depositor idx :
-  K_OrderBookParticipation_ValidateWithdraw (gp_of p) depositor idx = negb (p_settled p) && (p_owner p =? depositor).
-Proof.
-  unfold K_OrderBookParticipation_ValidateWithdraw. cbn [gp_of G_OrderBookParticipation_IsSettled G_OrderBookParticipation_ParticipantAddress].
-  destruct (p_settled p); [reflexivity|]. destruct (p_owner p =? depositor); reflexivity.
-Qed.
-
-(* ---- kernels with range loops (generated as folds carrying the assigned variables and a "broke out" flag) ------------------------------- *)
-(* proposal.go DecideResult: the vote count and the comparison with the majority *)
-Lemma triple_eq (a b a' b' : Z) (c : bool) : a = a' -> b = b' -> (a, b, c) = (a', b', c).
-Proof. intros -> ->. reflexivity. Qed.
-Lemma decide_fold votes : forall y n,
-  kfold (y, n, false) (map (fun v => {| G_Vote_PublicKey := fst v; G_Vote_Vote := snd v |}) votes)
-    (fun '(g_yesCount, g_noCount, g__brk) g_v => if g__brk : bool then (g_yesCount, g_noCount, true) else
-       (if (G_Vote_Vote g_v) =? 2 then let g_yesCount := g_yesCount + 1 in (g_yesCount, g_noCount, false)
-        else (if (G_Vote_Vote g_v) =? 1 then let g_noCount := g_noCount + 1 in (g_yesCount, g_noCount, false) else (g_yesCount, g_noCount, false))))
-  = (y + count_votes VOTE_YES votes, n + count_votes VOTE_NO votes, false).
-Proof.
-  unfold kfold, count_votes, VOTE_YES, VOTE_NO, zlen. induction votes as [|[k v] r IH]; intros y n; cbn [map fold_left filter snd fst G_Vote_Vote length].
-  - apply triple_eq; lia.
-  - destruct (v =? 2) eqn:E2.
-    + apply Z.eqb_eq in E2. subst v. cbn [Z.eqb Pos.eqb]. rewrite IH. cbn [length]. apply triple_eq; lia.
-    + destruct (v =? 1) eqn:E1; rewrite IH; cbn [length]; apply triple_eq; lia.
-Qed.
-Lemma gen_DecideResult p keys : zlen keys <= 1000 -> K_PublicKeysChangeProposal_DecideResult (gprop_of p) (kv_of keys) = decide p (zlen keys).
-Proof.
-  intros Hk. unfold K_PublicKeysChangeProposal_DecideResult, decide. cbn [gprop_of G_PublicKeysChangeProposal_Votes].
-  rewrite decide_fold. rewrite gen_MajorityCount by exact Hk. cbn [Z.add]. unfold PR_REJECTED, PR_APPROVED.
-  destruct (majority_count (zlen keys) <=? count_votes VOTE_NO (pp_votes p)); [reflexivity|].
-  destruct (majority_count (zlen keys) <=? count_votes VOTE_YES (pp_votes p)); reflexivity.
-Qed.
-
-(* market.go HasOdds: a return inside the loop *)
-Lemma has_odds_fold o odds : forall r,
-  kfold (r, true) (map (fun o => {| G_Odds_UID := o; G_Odds_Meta := 0 |}) odds)
-    (fun '(g__ret, g__brk) g_o => if g__brk : bool then (g__ret, true) else
-      (if o =? G_Odds_UID g_o then let g__ret := Some true in (g__ret, true) else (g__ret, false))) = (r, true).
-Proof. unfold kfold. induction odds as [|x l IH]; intros r; cbn [map fold_left]; [reflexivity|apply IH]. Qed.
-Lemma gen_HasOdds mk o : K_Market_HasOdds (gm_of mk) o = zmem o (k_odds mk).
-Proof.
-  unfold K_Market_HasOdds, zmem. cbn [gm_of G_Market_Odds]. unfold kfold.
-  induction (k_odds mk) as [|x l IH]; cbn [map fold_left existsb G_Odds_UID]; [reflexivity|].
-  destruct (o =? x).
-  - pose proof (has_odds_fold o l (Some true)) as F. unfold kfold in F. rewrite F. reflexivity.
-  - exact IH.
-Qed.
-
-(* bet.go SetResult: the membership loop with break; the status / result written *)
-Lemma set_result_fold o ws : forall e,
-  kfold (e, true) ws (fun '(g_exist, g__brk) g_wid => if g__brk : bool then (g_exist, true) else
-      (if g_wid =? o then let g_exist := true in (g_exist, true) else (g_exist, false))) = (e, true).
-Proof. unfold kfold. induction ws as [|x l IH]; intros e; cbn [fold_left]; [reflexivity|apply IH]. Qed.
-Lemma set_result_fold2 o ws :
-  fst (kfold (false, false) ws (fun '(g_exist, g__brk) g_wid => if g__brk : bool then (g_exist, true) else
-      (if g_wid =? o then let g_exist := true in (g_exist, true) else (g_exist, false)))) = zmem o ws.
-Proof.
-  unfold zmem. pose proof (set_result_fold o) as S. unfold kfold in *. induction ws as [|x l IH]; cbn [fold_left existsb]; [reflexivity|].
-  rewrite (Z.eqb_sym o x). destruct (x =? o); [rewrite S; reflexivity|exact IH].
-Qed.
-Definition gb_of (b : bet) : G_Bet :=
-  {| G_Bet_UID := b_uid b; G_Bet_MarketUID := b_mkt b; G_Bet_OddsUID := b_odds b; G_Bet_OddsValue := b_oddsval b; G_Bet_Amount := b_amount b;
-     G_Bet_Fee := b_fee b; G_Bet_Status := b_status b; G_Bet_Result := b_result b; G_Bet_Creator := b_creator b; G_Bet_CreatedAt := b_created b;
-     G_Bet_SettlementHeight := b_sheight b; G_Bet_MaxLossMultiplier := b_mult b; G_Bet_BetFulfillment := zlen (b_parts b) |}.
-(* settle_bet: "not declared => error", then won iff the bet's outcome is among the market's winners *)
-Lemma gen_SetResult b mk :
-  K_Bet_SetResult (gb_of b) (gm_of mk) =
-  if negb (k_status mk =? MK_DECLARED) then None
-  else Some (gb_of (bet_with b BS_DECLARED (if zmem (b_odds b) (k_winners mk) then BR_WON else BR_LOST) (b_sheight b))).
-Proof.
-  unfold K_Bet_SetResult, MK_DECLARED. cbn [gm_of G_Market_Status G_Market_WinnerOddsUIDs gb_of G_Bet_OddsUID].
-  destruct (negb (k_status mk =? 5)); [reflexivity|].
-  pose proof (set_result_fold2 (b_odds b) (k_winners mk)) as F.
-  destruct (kfold (false, false) (k_winners mk) _) as [e brk]. cbn [fst] in F. subst e.
-  destruct (zmem (b_odds b) (k_winners mk)); reflexivity.
-Qed.
-
-(* ticket.go ValidateWinnerOdds: nested loops; the guard of market_resolve *)
-Lemma vwo_inner w odds : forall v,
-  kfold (v, false) (map (fun o => {| G_Odds_UID := o; G_Odds_Meta := 0 |}) odds)
-    (fun '(g_validWinnerOdds, g__brk) g_o => if g__brk : bool then (g_validWinnerOdds, true) else
-      (if G_Odds_UID g_o =? w then let g_validWinnerOdds := true in (g_validWinnerOdds, false) else (g_validWinnerOdds, false)))
-  = (v || zmem w odds, false).
-Proof.
-  unfold kfold, zmem. induction odds as [|x l IH]; intros v; cbn [map fold_left existsb G_Odds_UID]; [rewrite orb_false_r; reflexivity|].
-  rewrite (Z.eqb_sym w x). destruct (x =? w); rewrite IH; [cbn [orb]; rewrite orb_true_r; reflexivity|cbn [orb]; reflexivity].
-Qed.
-Lemma gen_ValidateWinnerOdds uid rts winners status mk :
-  K_MarketResolutionTicketPayload_ValidateWinnerOdds
-    {| G_MarketResolutionTicketPayload_UID := uid; G_MarketResolutionTicketPayload_ResolutionTS := rts;
-       G_MarketResolutionTicketPayload_WinnerOddsUIDs := winners; G_MarketResolutionTicketPayload_Status := status |} (gm_of mk)
-  = negb ((status =? MK_DECLARED) && ((rts <? k_start mk) || negb (forallb (fun w => zmem w (k_odds mk)) winners))).
-Proof.
-  unfold K_MarketResolutionTicketPayload_ValidateWinnerOdds, MK_DECLARED.
-  cbn [G_MarketResolutionTicketPayload_Status G_MarketResolutionTicketPayload_ResolutionTS G_MarketResolutionTicketPayload_WinnerOddsUIDs gm_of G_Market_StartTS G_Market_Odds].
-  destruct (status =? 5); [|reflexivity]. cbn [andb]. destruct (rts <? k_start mk); [reflexivity|]. cbn [orb].
-  match goal with |- (let '(_, _) := kfold _ _ ?f in _) = _ => set (F := f) end.
-  assert (Hstop : forall ws v, fold_left F ws (v, true) = (v, true)) by (induction ws as [|x l IH]; intros v; cbn [fold_left]; [reflexivity|apply IH]).
-  assert (Hrun : forall ws, fst (fold_left F ws (true, false)) = forallb (fun w => zmem w (k_odds mk)) ws).
-  { induction ws as [|x l IH]; cbn [fold_left forallb]; [reflexivity|].
-    unfold F at 2. cbv beta iota. rewrite vwo_inner. cbn [orb].
-    destruct (zmem x (k_odds mk)); cbn [negb andb]; [exact IH|rewrite Hstop; reflexivity]. }
-  specialize (Hrun winners). unfold kfold at 1. destruct (fold_left F winners (true, false)) as [v brk]. cbn [fst] in Hrun. subst v.
-  destruct (forallb _ winners); reflexivity.
-Qed.
-
-
-(* ---- x/bet/types/params.go Params.Validate (generated with its three validators): what an accepted bet parameter set satisfies ------------- *)
-Definition gbp_of (P : params) (query_count : Z) : G_betParams :=
-  {| G_betParams_BatchSettlementCount := pr_bet_batch P; G_betParams_MaxBetByUidQueryCount := query_count;
-     G_betParams_Constraints := {| G_Constraints_MinAmount := pr_bet_min P; G_Constraints_Fee := pr_bet_fee P |} |}.
-Lemma gen_bet_Validate P qc :
-  K_betParams_Validate (gbp_of P qc) = ((0 <? pr_bet_batch P) && (0 <? qc) && (1 <? pr_bet_min P) && (0 <=? pr_bet_fee P) && (pr_bet_fee P <? pr_bet_min P)).
-Proof.
-  unfold K_betParams_Validate, K__validateBatchSettlementCount, K__validateMaxBetByUIDQueryCount, K__validateConstraints. cbv zeta.
-  cbn [negb gbp_of G_betParams_BatchSettlementCount G_betParams_MaxBetByUidQueryCount G_betParams_Constraints G_Constraints_MinAmount G_Constraints_Fee].
-  rewrite (Z.leb_antisym 0 (pr_bet_batch P)), (Z.leb_antisym 0 qc), (Z.leb_antisym 1 (pr_bet_min P)), (Z.ltb_antisym 0 (pr_bet_fee P)),
-    (Z.leb_antisym (pr_bet_fee P) (pr_bet_min P)).
-  destruct (0 <? pr_bet_batch P), (0 <? qc), (1 <? pr_bet_min P), (0 <=? pr_bet_fee P), (pr_bet_fee P <? pr_bet_min P); reflexivity.
-Qed.
-Lemma bet_Validate_accepts P qc : K_betParams_Validate (gbp_of P qc) = true ->
-  0 < pr_bet_batch P /\ 1 < pr_bet_min P /\ 0 <= pr_bet_fee P < pr_bet_min P.
-Proof.
-  rewrite gen_bet_Validate. intros H. repeat (apply andb_true_iff in H; destruct H as [H ?]).
-  repeat match goal with
-         | X : (_ <? _) = true |- _ => apply Z.ltb_lt in X
-         | X : (_ <=? _) = true |- _ => apply Z.leb_le in X
-         end. lia.
-Qed.
-
-(* ---- x/orderbook and x/house Params.Validate ------------------------------------------------------------------------------------------------ *)
-Definition gobp_of (P : params) : G_orderbookParams :=
-  {| G_orderbookParams_MaxOrderBookParticipations := pr_ob_maxpart P; G_orderbookParams_BatchSettlementCount := pr_ob_batch P;
-     G_orderbookParams_RequeueThreshold := pr_ob_thr P |}.
-Lemma gen_ob_Validate P : K_orderbookParams_Validate (gobp_of P) = (negb (pr_ob_maxpart P =? 0) && negb (pr_ob_batch P =? 0)).
-Proof.
-  unfold K_orderbookParams_Validate, K__validateMaxOrderBookParticipations, K_orderbook_validateBatchSettlementCount, K__validateRequeueThreshold.
-  cbv zeta. cbn [negb gobp_of G_orderbookParams_MaxOrderBookParticipations G_orderbookParams_BatchSettlementCount G_orderbookParams_RequeueThreshold].
-  destruct (pr_ob_maxpart P =? 0), (pr_ob_batch P =? 0); reflexivity.
-Qed.
-Definition ghp_of (P : params) : G_houseParams :=
-  {| G_houseParams_MinDeposit := pr_h_mindep P; G_houseParams_HouseParticipationFee := pr_h_fee P; G_houseParams_MaxWithdrawalCount := pr_h_maxw P |}.
-Lemma gen_house_Validate P : K_houseParams_Validate (ghp_of P) = ((1 <? pr_h_mindep P) && (0 <=? pr_h_fee P)).
-Proof.
-  unfold K_houseParams_Validate, K__validateMinimumDeposit, K__validateHouseParticipationFee. cbv zeta.
-  cbn [negb ghp_of G_houseParams_MinDeposit G_houseParams_HouseParticipationFee].
-  rewrite (Z.leb_antisym 1 (pr_h_mindep P)), (Z.ltb_antisym 0 (pr_h_fee P)).
-  destruct (1 <? pr_h_mindep P), (0 <=? pr_h_fee P); reflexivity.
-Qed.
-
-(* ---- time checks and ticket payload validation with the block time (sdk.Context is its BlockTime().Unix()) ------------------------------------ *)
-Lemma gen_validateMarketTS now st en : K__validateMarketTS now st en = market_ts_ok now st en.
-Proof. unfold K__validateMarketTS, market_ts_ok. destruct (en <=? now); [reflexivity|]. destruct ((en <=? st) || (st =? 0)); reflexivity. Qed.
-(* the two guards of market_update that come from the ticket payload *)
-Lemma gen_update_Validate uid st en status now :
-  K_MarketUpdateTicketPayload_Validate {| G_MarketUpdateTicketPayload_UID := uid; G_MarketUpdateTicketPayload_StartTS := st;
-      G_MarketUpdateTicketPayload_EndTS := en; G_MarketUpdateTicketPayload_Status := status |} now
-  = status_ai status && market_ts_ok now st en.
-Proof.
-  unfold K_MarketUpdateTicketPayload_Validate, status_ai, MK_ACTIVE, MK_INACTIVE.
-  cbn [G_MarketUpdateTicketPayload_Status G_MarketUpdateTicketPayload_StartTS G_MarketUpdateTicketPayload_EndTS].
-  rewrite gen_validateMarketTS. destruct ((status =? 1) || (status =? 2)); reflexivity.
-Qed.
-(* the payload guards of market_resolve (identifiers are integers, the invalid spellings the negative ones) *)
-Lemma gen_resolution_Validate uid rts winners status :
-  K_MarketResolutionTicketPayload_Validate
-    {| G_MarketResolutionTicketPayload_UID := uid; G_MarketResolutionTicketPayload_ResolutionTS := rts;
-       G_MarketResolutionTicketPayload_WinnerOddsUIDs := winners; G_MarketResolutionTicketPayload_Status := status |}
-  = status_resolved status && negb ((status =? MK_DECLARED) && (1 <? zlen winners)) && negb (negb (status =? MK_DECLARED) && (0 <? zlen winners))
-    && negb (rts =? 0) && negb (uid <? 0) && negb ((status =? MK_DECLARED) && (zlen winners <? 1)) && forallb (fun o => 0 <=? o) winners.
-Proof.
-  unfold K_MarketResolutionTicketPayload_Validate, status_resolved, MK_CANCELED, MK_ABORTED, MK_DECLARED.
-  cbn [G_MarketResolutionTicketPayload_Status G_MarketResolutionTicketPayload_ResolutionTS G_MarketResolutionTicketPayload_WinnerOddsUIDs
-       G_MarketResolutionTicketPayload_UID].
-  match goal with |- context [kfold _ _ ?f] => set (F := f) end.
-  assert (Hstop : forall l r, fold_left F l (r, true) = (r, true)).
-  { induction l as [|x l IH]; intros r; cbn [fold_left]; [reflexivity|apply IH]. }
-  assert (Hrun : forall l, kfold (None, false) l F = if forallb (fun o => 0 <=? o) l then (None, false) else (Some false, true)).
-  { unfold kfold. induction l as [|x l IH]; cbn [fold_left forallb]; [reflexivity|].
-    unfold F at 2. cbv beta iota. destruct (0 <=? x); cbn [negb andb]; [exact IH|apply Hstop]. }
-  rewrite !Hrun. unfold klen, zlen. rewrite (Z.ltb_antisym 0 uid).
-  destruct (status =? 3), (status =? 4), (status =? 5), (1 <? Z.of_nat (length winners)), (0 <? Z.of_nat (length winners)), (rts =? 0),
-    (0 <=? uid), (Z.of_nat (length winners) <? 1), (forallb (fun o => 0 <=? o) winners); reflexivity.
-Qed.
-
-(* subaccount keeper sumLockedBalance: refused when an unlock time lies before the block time, else the sum *)
-Definition glb_of (l : Z * Z) : G_LockedBalance := {| G_LockedBalance_UnlockTS := fst l; G_LockedBalance_Amount := snd l |}.
-Lemma gen_sumLockedBalance now ls : K__sumLockedBalance now (map glb_of ls) = sum_locks now ls.
-Proof.
-  unfold K__sumLockedBalance, sum_locks.
-  match goal with |- context [kfold _ _ ?f] => set (F := f) end. unfold kfold.
-  assert (Hstop : forall l a r, fold_left F l (a, r, true) = (a, r, true)).
-  { induction l as [|x l IH]; intros a r; cbn [fold_left]; [reflexivity|apply IH]. }
-  assert (Hrun : forall l a, fold_left F (map glb_of l) (a, None, false) =
-            if existsb (fun l => fst l <? now) l then (fst (fst (fold_left F (map glb_of l) (a, None, false))), Some None, true)
-            else (a + zsum (map snd l), None, false)).
-  { induction l as [|x l IH]; intros a; cbn [map fold_left existsb zsum].
-    - f_equal. f_equal. lia.
-    - assert (HF : F (a, None, false) (glb_of x) = if fst x <? now then (a, Some None, true) else (a + snd x, None, false)).
-      { unfold F. cbv beta iota. cbn [glb_of G_LockedBalance_UnlockTS G_LockedBalance_Amount]. destruct (fst x <? now); reflexivity. }
-      rewrite HF. destruct (fst x <? now); cbn [orb].
-      + rewrite Hstop. reflexivity.
-      + rewrite IH. destruct (existsb (fun l0 => fst l0 <? now) l); [reflexivity|]. f_equal. f_equal. lia. }
-  rewrite Hrun. destruct (existsb (fun l => fst l <? now) ls); [reflexivity|]. cbn [Z.add]. reflexivity.
-Qed.
-
-(* ---- stateful kernels of x/subaccount/keeper/balance.go: withdrawUnlocked and withdrawLockedAndUnlocked, generated as functions on the
-   state they reach through the keeper (account summary, unlocked total, bank balances of the subaccount and of its owner; SendCoins is the
-   guarded transfer between the two balances) ------------------------------------------------------------------------------------------- *)
-Definition subwd_state (x : subacc) (unl sb ob : Z) : S_subwd :=
-  {| S_subwd_Summary := as_of x; S_subwd_Unlocked := unl; S_subwd_SubBal := sb; S_subwd_OwnerBal := ob |}.
-
-(* = the body of sub_withdraw_unlocked: amount, refusal of a zero amount, Withdraw, then the transfer *)
-Lemma gen_withdrawUnlocked x unl sb ob :
-  K_subwd_withdrawUnlocked (subwd_state x unl sb ob) =
-  let w := Z.min (Z.min (sub_available x) (zmax0 (unl - sa_wd x))) sb in
-  if w =? 0 then None else
-  match sub_withdraw x w with
-  | None => None
-  | Some x' => if sb <? w then None else Some (subwd_state x' unl (sb - w) (ob + w))
-  end.
-Proof.
-  unfold K_subwd_withdrawUnlocked, subwd_state. cbn [S_subwd_Summary S_subwd_Unlocked S_subwd_SubBal S_subwd_OwnerBal].
-  rewrite gen_WithdrawableUnlockedBalance. cbv zeta.
-  set (w := Z.min (Z.min (sub_available x) (zmax0 (unl - sa_wd x))) sb).
-  destruct (w =? 0); [reflexivity|]. rewrite gen_Withdraw. destruct (sub_withdraw x w) as [x'|]; cbn [option_map]; [|reflexivity].
-  cbn [set_S_subwd_Summary set_S_subwd_SubBal set_S_subwd_OwnerBal S_subwd_Summary S_subwd_Unlocked S_subwd_SubBal S_subwd_OwnerBal].
-  destruct (sb <? w); reflexivity.
-Qed.
-
-(* = the subaccount part of sub_wager: the bound, the transfer, then Withdraw *)
-Lemma gen_withdrawLockedAndUnlocked x unl sb ob d :
-  K_subwd_withdrawLockedAndUnlocked (subwd_state x unl sb ob) d =
-  if Z.min (Z.min (sub_available x) sb) d <? d then None else
-  if sb <? d then None else
-  match sub_withdraw x d with None => None | Some x' => Some (subwd_state x' unl (sb - d) (ob + d)) end.
-Proof.
-  unfold K_subwd_withdrawLockedAndUnlocked, subwd_state. cbn [S_subwd_Summary S_subwd_Unlocked S_subwd_SubBal S_subwd_OwnerBal].
-  rewrite gen_WithdrawableBalance. destruct (Z.min (Z.min (sub_available x) sb) d <? d); [reflexivity|].
-  destruct (sb <? d); [reflexivity|].
-  cbn [set_S_subwd_Summary set_S_subwd_SubBal set_S_subwd_OwnerBal S_subwd_Summary S_subwd_Unlocked S_subwd_SubBal S_subwd_OwnerBal].
-  rewrite gen_Withdraw. destruct (sub_withdraw x d); reflexivity.
-Qed.
-
-(* the model's sub_withdraw_unlocked IS the generated handler: state assembled from the chain state, result written back to it *)
-Lemma model_is_withdrawUnlocked s owner x :
-  sub_by_owner (c_subs s) owner = Some x ->
-  sub_withdraw_unlocked s owner =
-  match K_subwd_withdrawUnlocked (subwd_state x (unlocked_total (c_now s) x) (bget (c_bank s) (sub_addr x)) (bget (c_bank s) owner)) with
-  | None => None
-  | Some st => match sub_withdraw x (bget (c_bank s) (sub_addr x) - S_subwd_SubBal st) with
-               | None => None
-               | Some x' => match pay (c_bank s) (sub_addr x) owner (bget (c_bank s) (sub_addr x) - S_subwd_SubBal st) with
-                            | None => None
-                            | Some b => Some (set_bank (with_subs s (set_sub (c_subs s) x')) b)
-                            end
-               end
-  end.
-Proof.
-  intros E. unfold sub_withdraw_unlocked. rewrite E, gen_withdrawUnlocked. cbv zeta.
-  set (w := Z.min (Z.min (sub_available x) (zmax0 (unlocked_total (c_now s) x - sa_wd x))) (bget (c_bank s) (sub_addr x))).
-  destruct (w =? 0); [reflexivity|]. destruct (sub_withdraw x w) as [x'|] eqn:EW; [|reflexivity].
-  destruct (bget (c_bank s) (sub_addr x) <? w) eqn:EL.
-  - unfold pay. rewrite EL. destruct (w <? 0); reflexivity.
-  - cbn [subwd_state S_subwd_SubBal]. replace (bget (c_bank s) (sub_addr x) - (bget (c_bank s) (sub_addr x) - w)) with w by lia.
-    rewrite EW. reflexivity.
-Qed.
-
-(* ---- the market update and resolution handlers (x/market/keeper msg_server_market.go Update, msg_server_market_resolve.go Resolve, market.go
-   Resolve), generated as functions on the state they reach: whether the ticket verifies and the payload it carries, the market stored under
-   the payload's uid and whether it exists, the queue of resolved markets, the block time ---------------------------------------------------- *)
-Definition mkt_state (tok : bool) (up : G_MarketUpdateTicketPayload) (rp : G_MarketResolutionTicketPayload) (found : bool) (mk : market)
-                     (q : list Z) (now : Z) : S_mkt :=
-  {| S_mkt_TicketOK := tok; S_mkt_UpdPayload := up; S_mkt_ResPayload := rp; S_mkt_Found := found; S_mkt_Market := gm_of mk; S_mkt_Queue := q; S_mkt_Now := now |}.
-Definition upd_payload (uid st en status : Z) : G_MarketUpdateTicketPayload :=
-  {| G_MarketUpdateTicketPayload_UID := uid; G_MarketUpdateTicketPayload_StartTS := st; G_MarketUpdateTicketPayload_EndTS := en;
-     G_MarketUpdateTicketPayload_Status := status |}.
-Definition res_payload (uid rts : Z) (winners : list Z) (status : Z) : G_MarketResolutionTicketPayload :=
-  {| G_MarketResolutionTicketPayload_UID := uid; G_MarketResolutionTicketPayload_ResolutionTS := rts;
-     G_MarketResolutionTicketPayload_WinnerOddsUIDs := winners; G_MarketResolutionTicketPayload_Status := status |}.
-
-(* = market_update after the ticket and the lookup: the three guards, then the three fields are replaced *)
-Lemma gen_msgUpdate tok uid st en status rp found mk q now :
-  K_mkt_msgUpdate (mkt_state tok (upd_payload uid st en status) rp found mk q now) =
-  if negb tok then None else if negb found then None
-  else if negb (status_ai (k_status mk)) then None
-  else if negb (status_ai status) then None
-  else if negb (market_ts_ok now st en) then None
-  else Some (mkt_state tok (upd_payload uid st en status) rp true (market_with mk st en status (k_winners mk) (k_rts mk)) q now).
-Proof.
-  unfold K_mkt_msgUpdate, mkt_state. cbn [S_mkt_TicketOK S_mkt_UpdPayload S_mkt_Found S_mkt_Market S_mkt_Now].
-  destruct tok; cbn [negb]; [|reflexivity]. destruct found; cbn [negb]; [|reflexivity].
-  rewrite gen_market_update_allowed. destruct (status_ai (k_status mk)); cbn [negb]; [|reflexivity].
-  unfold upd_payload at 1. rewrite gen_update_Validate.
-  destruct (status_ai status); cbn [negb andb]; [|reflexivity]. destruct (market_ts_ok now st en); cbn [negb]; reflexivity.
-Qed.
-
-(* = market_resolve after the ticket: payload guards, lookup, status, winners; the record is rewritten and the market queued *)
-Lemma gen_msgResolve tok up uid rts winners status found mk q now :
-  K_mkt_msgResolve (mkt_state tok up (res_payload uid rts winners status) found mk q now) =
-  if negb tok then None
-  else if negb (status_resolved status && negb ((status =? MK_DECLARED) && (1 <? zlen winners)) && negb (negb (status =? MK_DECLARED) && (0 <? zlen winners))
-                && negb (rts =? 0) && negb (uid <? 0) && negb ((status =? MK_DECLARED) && (zlen winners <? 1)) && forallb (fun o => 0 <=? o) winners) then None
-  else if negb found then None
-  else if negb (status_ai (k_status mk)) then None
-  else if (status =? MK_DECLARED) && ((rts <? k_start mk) || negb (forallb (fun w => zmem w (k_odds mk)) winners)) then None
-  else Some (mkt_state tok up (res_payload uid rts winners status) true
-               (market_with mk (k_start mk) (k_end mk) status (if status =? MK_DECLARED then winners else k_winners mk) rts) (q ++ [k_uid mk]) now).
-Proof.
-  unfold K_mkt_msgResolve, mkt_state. cbn [S_mkt_TicketOK S_mkt_ResPayload S_mkt_Found S_mkt_Market S_mkt_Now].
-  destruct tok; cbn [negb]; [|reflexivity].
-  unfold res_payload at 1. rewrite gen_resolution_Validate.
-  match goal with |- (if negb ?g then _ else _) = _ => destruct g eqn:EG end; cbn [negb]; [|reflexivity].
-  destruct found; cbn [negb]; [|reflexivity].
-  rewrite gen_market_resolve_allowed. destruct (status_ai (k_status mk)); cbn [negb]; [|reflexivity].
-  unfold res_payload at 1. rewrite gen_ValidateWinnerOdds.
-  destruct ((status =? MK_DECLARED) && ((rts <? k_start mk) || negb (forallb (fun w => zmem w (k_odds mk)) winners))); cbn [negb]; [reflexivity|].
-  (* the resolved status is one of the three (from the payload guard) *)
-  assert (HR : status_resolved status = true).
-  { repeat (apply andb_true_iff in EG; destruct EG as [EG _]). exact EG. }
-  unfold K_mkt_Resolve, res_payload, MK_DECLARED.
-  cbn [G_MarketResolutionTicketPayload_ResolutionTS G_MarketResolutionTicketPayload_Status G_MarketResolutionTicketPayload_WinnerOddsUIDs].
-  unfold status_resolved, MK_CANCELED, MK_ABORTED, MK_DECLARED in HR.
-  unfold K_Market_IsResolved, set_G_Market_WinnerOddsUIDs, set_G_Market_Status, set_G_Market_ResolutionTS, gm_of.
-  cbn [G_Market_Status G_Market_UID G_Market_StartTS G_Market_EndTS G_Market_Odds G_Market_WinnerOddsUIDs G_Market_ResolutionTS G_Market_Creator
-       G_Market_Meta G_Market_BookUID].
-  destruct (status =? 5) eqn:E5.
-  - cbn [orb]. reflexivity.
-  - rewrite orb_false_r in HR. cbn [orb]. rewrite HR. reflexivity.
-Qed.
-
-(* the model's handlers accept exactly when the generated handlers do (on the state assembled from the chain state), and gen_msgUpdate /
-   gen_msgResolve say that the record and the queue the generated handlers store are the model's *)
-Lemma model_market_update s tk uid st en status rp :
-  market_update s tk uid st en status =
-  match get_ms s uid with
-  | None => None
-  | Some x =>
-      match K_mkt_msgUpdate (mkt_state (ticket_ok s tk) (upd_payload uid st en status) rp true (ms_mkt x) (c_mqueue s) (c_now s)) with
-      | None => None
-      | Some _ =>
-          let x' := mstate_upd x (market_with (ms_mkt x) st en status (k_winners (ms_mkt x)) (k_rts (ms_mkt x))) (ms_book x)
-                               (ms_bets x) (ms_pending x) (ms_deps x) (ms_wds x) in
-          Some (chain_upd s (c_bank s) (set_ms_list (c_ms s) uid x') (c_mqueue s) (c_bqueue s) (c_betcnt s) (c_uid2id s) (c_settledix s) (c_grants s))
-      end
-  end.
-Proof.
-  unfold market_update. destruct (ticket_ok s tk) eqn:ET; cbn [negb].
-  - destruct (get_ms s uid) as [x|]; [|reflexivity]. rewrite gen_msgUpdate. cbn [negb].
-    destruct (status_ai (k_status (ms_mkt x))); cbn [negb]; [|reflexivity].
-    destruct (status_ai status); cbn [negb]; [|reflexivity]. destruct (market_ts_ok (c_now s) st en); reflexivity.
-  - destruct (get_ms s uid) as [x|]; [|reflexivity]. rewrite gen_msgUpdate. reflexivity.
-Qed.
-
-Lemma model_market_resolve s tk uid rts winners status up :
-  market_resolve s tk uid rts winners status =
-  match get_ms s uid with
-  | None => match K_mkt_msgResolve (mkt_state (ticket_ok s tk) up (res_payload uid rts winners status) false
-                                              {| k_uid := uid; k_creator := 0; k_start := 0; k_end := 0; k_odds := []; k_status := 0; k_winners := []; k_rts := 0 |}
-                                              (c_mqueue s) (c_now s)) with
-            | None => None | Some _ => None end
-  | Some x =>
-      match K_mkt_msgResolve (mkt_state (ticket_ok s tk) up (res_payload uid rts winners status) true (ms_mkt x) (c_mqueue s) (c_now s)) with
-      | None => None
-      | Some _ =>
-          let mk' := market_with (ms_mkt x) (k_start (ms_mkt x)) (k_end (ms_mkt x)) status
-                                 (if status =? MK_DECLARED then winners else k_winners (ms_mkt x)) rts in
-          let x' := mstate_upd x mk' (ms_book x) (ms_bets x) (ms_pending x) (ms_deps x) (ms_wds x) in
-          Some (chain_upd s (c_bank s) (set_ms_list (c_ms s) uid x') (c_mqueue s ++ [uid]) (c_bqueue s) (c_betcnt s) (c_uid2id s) (c_settledix s) (c_grants s))
-      end
-  end.
-Proof.
-  unfold market_resolve. destruct (get_ms s uid) as [x|]; rewrite gen_msgResolve; destruct (ticket_ok s tk); cbn [negb].
-  2, 4: (repeat match goal with |- context [if ?c then None else _] => destruct c end); reflexivity.
-  - destruct (status_resolved status); cbn [negb andb]; [|reflexivity].
-    destruct ((status =? MK_DECLARED) && (1 <? zlen winners)); cbn [negb andb]; [reflexivity|].
-    destruct (negb (status =? MK_DECLARED) && (0 <? zlen winners)); cbn [negb andb]; [reflexivity|].
-    destruct (rts =? 0); cbn [negb andb]; [reflexivity|]. destruct (uid <? 0); cbn [negb andb]; [reflexivity|].
-    destruct ((status =? MK_DECLARED) && (zlen winners <? 1)); cbn [negb andb]; [reflexivity|].
-    destruct (forallb (fun o => 0 <=? o) winners); cbn [negb]; [|reflexivity].
-    destruct (status_ai (k_status (ms_mkt x))); cbn [negb]; [|reflexivity].
-    destruct ((status =? MK_DECLARED) && ((rts <? k_start (ms_mkt x)) || negb (forallb (fun w => zmem w (k_odds (ms_mkt x))) winners))); reflexivity.
-  - destruct (status_resolved status); cbn [negb andb]; [|reflexivity].
-    destruct ((status =? MK_DECLARED) && (1 <? zlen winners)); cbn [negb andb]; [reflexivity|].
-    destruct (negb (status =? MK_DECLARED) && (0 <? zlen winners)); cbn [negb andb]; [reflexivity|].
-    destruct (rts =? 0); cbn [negb andb]; [reflexivity|]. destruct (uid <? 0); cbn [negb andb]; [reflexivity|].
-    destruct ((status =? MK_DECLARED) && (zlen winners <? 1)); cbn [negb andb]; [reflexivity|].
-    destruct (forallb (fun o => 0 <=? o) winners); reflexivity.
-Qed.
-
-(* ---- x/subaccount/keeper/balance.go TopUp, generated over the state it reaches: does the owner have a subaccount, its summary and lock
-   records, the bank balances of the funding account and of the subaccount, the block time --------------------------------------------------- *)
-Definition subtop_state (ex : bool) (x : subacc) (sumex : bool) (cb sb now : Z) : S_subtop :=
-  {| S_subtop_Exists := ex; S_subtop_Summary := as_of x; S_subtop_SummaryExists := sumex; S_subtop_Locks := map glb_of (sa_locks x);
-     S_subtop_CreatorBal := cb; S_subtop_SubBal := sb; S_subtop_Now := now |}.
-
-Lemma existsb_glb (old : list (Z * Z)) k :
-  existsb (fun g => G_LockedBalance_UnlockTS g =? k) (map glb_of old) = existsb (fun o => fst o =? k) old.
-Proof. induction old as [|a l IH]; cbn [map existsb]; [reflexivity|]. rewrite IH. reflexivity. Qed.
-Lemma kupd_glb (acc : list (Z * Z)) l :
-  kupd (fun g => G_LockedBalance_UnlockTS g =? G_LockedBalance_UnlockTS (glb_of l)) (glb_of l) (map glb_of acc) =
-  map glb_of (upd (fun x => fst x =? fst l) l acc).
-Proof. induction acc as [|a r IH]; cbn [map kupd upd]; [reflexivity|]. cbn [glb_of G_LockedBalance_UnlockTS]. destruct (fst a =? fst l); cbn [map]; [reflexivity|]. f_equal. exact IH. Qed.
-Lemma set_locks_glb (new old : list (Z * Z)) :
-  fold_left (fun acc g => kupd (fun y => G_LockedBalance_UnlockTS y =? G_LockedBalance_UnlockTS g) g acc) (map glb_of new) (map glb_of old) =
-  map glb_of (set_locks old new).
-Proof.
-  unfold set_locks. revert old. induction new as [|l r IH]; intros old; cbn [map fold_left]; [reflexivity|].
-  rewrite kupd_glb. apply IH.
-Qed.
-
-(* = sub_topup after the validity of the lock list and the owner lookup: refusal of an unlock time before the block time or one that
-   already has a record, the deposited amount grows by the sum, the lock records are written (last write per unlock time wins), the sum
-   moves from the funding account to the subaccount (refused when the funding account holds less) *)
-Lemma gen_TopUp x locks cb sb now :
-  K_subtop_TopUp (subtop_state true x true cb sb now) (map glb_of locks) =
-  match sum_locks now locks with
-  | None => None
-  | Some tot =>
-      if existsb (fun l => existsb (fun o => fst o =? fst l) (sa_locks x)) locks then None
-      else if cb <? tot then None
-      else Some (subtop_state true (sub_with x (sa_dep x + tot) (sa_spent x) (sa_wd x) (sa_lost x) (set_locks (sa_locks x) locks)) true (cb - tot) (sb + tot) now)
-  end.
-Proof.
-  unfold K_subtop_TopUp. replace (S_subtop_Now (subtop_state true x true cb sb now)) with now by reflexivity.
-  rewrite gen_sumLockedBalance. destruct (sum_locks now locks) as [tot|]; [|reflexivity].
-  cbv zeta. replace (S_subtop_Exists (subtop_state true x true cb sb now)) with true by reflexivity.
-  replace (S_subtop_SummaryExists (subtop_state true x true cb sb now)) with true by reflexivity.
-  replace (S_subtop_Summary (subtop_state true x true cb sb now)) with (as_of x) by reflexivity. cbn [negb]. cbv iota beta.
-  match goal with |- context [kfold _ _ ?f] => set (F := f) end. unfold kfold.
-  set (st0 := subtop_state true x true cb sb now).
-  assert (Hstop : forall l s r, fold_left F l (s, r, true) = (s, r, true)).
-  { induction l as [|a l IH]; intros s r; cbn [fold_left]; [reflexivity|apply IH]. }
-  assert (Hrun : forall l, fold_left F (map glb_of l) (st0, None, false) =
-            if existsb (fun l0 => existsb (fun o => fst o =? fst l0) (sa_locks x)) l then (st0, Some None, true) else (st0, None, false)).
-  { induction l as [|a l IH]; cbn [map fold_left existsb]; [reflexivity|].
-    assert (HF : F (st0, None, false) (glb_of a) = if existsb (fun o => fst o =? fst a) (sa_locks x) then (st0, Some None, true) else (st0, None, false)).
-    { unfold F. cbv beta iota. replace (S_subtop_Locks st0) with (map glb_of (sa_locks x)) by reflexivity.
-      cbn [glb_of G_LockedBalance_UnlockTS]. rewrite existsb_glb. destruct (existsb (fun o => fst o =? fst a) (sa_locks x)); reflexivity. }
-    rewrite HF. destruct (existsb (fun o => fst o =? fst a) (sa_locks x)); cbn [orb]; [apply Hstop|exact IH]. }
-  rewrite Hrun. destruct (existsb (fun l0 => existsb (fun o => fst o =? fst l0) (sa_locks x)) locks); [reflexivity|].
-  cbv iota beta. subst st0. unfold subtop_state.
-  cbn [set_S_subtop_Summary set_S_subtop_Locks set_S_subtop_CreatorBal set_S_subtop_SubBal S_subtop_Exists S_subtop_Summary S_subtop_SummaryExists
-       S_subtop_Locks S_subtop_CreatorBal S_subtop_SubBal S_subtop_Now].
-  rewrite set_locks_glb. destruct (cb <? tot); reflexivity.
-Qed.
-
-Lemma lock_ok_sum_nonneg now locks tot : forallb (lock_ok now) locks = true -> sum_locks now locks = Some tot -> 0 <= tot.
-Proof.
-  unfold sum_locks. destruct (existsb (fun l => fst l <? now) locks); [discriminate|]. intros H E. injection E as <-.
-  induction locks as [|a l IH]; cbn [map zsum]; [lia|]. cbn [forallb] in H. apply andb_true_iff in H. destruct H as [Ha Hl].
-  unfold lock_ok in Ha. apply andb_true_iff in Ha. destruct Ha as [_ Ha]. apply negb_true_iff, Z.ltb_ge in Ha. specialize (IH Hl). lia.
-Qed.
-
-(* the model's sub_topup accepts exactly when the generated TopUp does on the state assembled from the chain state (gen_TopUp says that what
-   the generated function stores is the model's new subaccount record and balances) *)
-Lemma model_sub_topup s creator owner locks x :
-  forallb (lock_ok (c_now s)) locks = true -> sub_by_owner (c_subs s) owner = Some x ->
-  (sub_topup s creator owner locks = None <->
-   K_subtop_TopUp (subtop_state true x true (bget (c_bank s) creator) (bget (c_bank s) (sub_addr x)) (c_now s)) (map glb_of locks) = None).
-Proof.
-  intros HL E. unfold sub_topup. rewrite HL, E, gen_TopUp. cbn [negb].
-  destruct (sum_locks (c_now s) locks) as [tot|] eqn:ES; [|split; reflexivity].
-  pose proof (lock_ok_sum_nonneg _ _ _ HL ES) as Hn.
-  destruct (existsb (fun l => existsb (fun o => fst o =? fst l) (sa_locks x)) locks); [split; reflexivity|].
-  unfold pay. replace (tot <? 0) with false by (symmetry; apply Z.ltb_ge; exact Hn).
-  destruct (bget (c_bank s) creator <? tot); split; intros H; try reflexivity; discriminate.
-Qed.
+(* Proofs/GenKernels.v — umbrella: the equivalence lemmas between the generated kernels and the model live in one file per module
+   (GenSub, GenOb, GenBet, GenMarket, GenOvmK, GenReward, GenHouse, GenMintK, GenParams; stateful kernels also in GenMint, GenOvm, GenSettle). *)
+From Sge Require Export Proofs.GenSub Proofs.GenOb Proofs.GenMarket Proofs.GenBet Proofs.GenOvmK Proofs.GenReward Proofs.GenHouse Proofs.GenMintK Proofs.GenParams.
